@@ -644,6 +644,60 @@ var scenarios = []scenario{
 			})
 		}
 	}},
+	{"commitrace", func(rd *runner) {
+		// A commit at a smaller, mid-tile size (resolved by a ticket) is held inside the backend
+		// round-trip of ensureCutTiles while a second request towards the newer pending checkpoint is
+		// started: it must not be able to record its larger checkpoint before the held commit records
+		// the smaller one (the sizes of the mirror checkpoints never decrease).
+		rd.run("x", 1300, func(h *hist) { // the demo: A = [0,300) with the ticket, B = [300,600)
+			h.pending(300)
+			t := h.probe()
+			h.pending(600)
+			a, _ := h.begin(0, 300, t)
+			h.pkgs(a)
+			_, b, rb := h.evCommitRace(a, beginReq{start: 300, end: 600})
+			h.runToEnd(b, rb)
+			h.evRestart()
+			h.pending(700)
+		})
+		rd.run("x", 1300, func(h *hist) { // A commit-only behind the next entry (cut tiles from the full tile), B commit-only at 600
+			h.pending(300)
+			t := h.probe()
+			h.pending(600)
+			c, _ := h.begin(0, 600, "-")
+			h.pkgs(c)
+			a, _ := h.begin(300, 300, t)
+			_, b, rb := h.evCommitRace(a, beginReq{start: 600, end: 600})
+			h.runToEnd(b, rb)
+			h.commit(c)
+			h.evRestart()
+			h.pending(700)
+		})
+		rd.run("x", 1300, func(h *hist) { // cut tiles from a wider partial; B re-uploads everything
+			h.pending(100)
+			t := h.probe()
+			h.pending(200)
+			c, _ := h.begin(0, 200, "-")
+			h.pkgs(c)
+			a, _ := h.begin(100, 100, t)
+			_, b, rb := h.evCommitRace(a, beginReq{start: 0, end: 200})
+			h.runToEnd(b, rb)
+			h.evRestart()
+			h.pending(300)
+		})
+		rd.run("x", 1300, func(h *hist) { // above full tiles, B resolved by a second ticket, then a third commit
+			h.pending(800)
+			t8 := h.probe()
+			h.pending(900)
+			t9 := h.probe()
+			h.pending(1000)
+			a, _ := h.begin(0, 800, t8)
+			h.pkgs(a)
+			_, b, rb := h.evCommitRace(a, beginReq{start: 800, end: 900, ticket: t9})
+			h.runToEnd(b, rb)
+			h.upload(900, 1000, "-")
+		})
+	}},
 	{"retry", func(rd *runner) { rd.enumerate("p", 1000, "retry", baseScript) }},
 	{"retry2", func(rd *runner) { rd.enumerate("p", 1000, "retryalt", raceScript) }},
 	{"retryolder", func(rd *runner) { rd.enumerate("v", 1100, "retryall", olderScript) }},
